@@ -75,8 +75,8 @@ Record float_lit := FloatLit {
   fl_frac : option str;     (* None: no dot;  Some fp: a dot followed by the digits fp *)
   fl_exp : exponent }.
 
-Definition frac_digits (fl : float_lit) : str := match fl_frac fl with Some fp => fp | None => [] end.
-Definition frac_text (fl : float_lit) : str := match fl_frac fl with Some fp => 46%N :: fp | None => [] end.
+Definition frac_digits (frac : option str) : str := match frac with Some fp => fp | None => [] end.
+Definition frac_text (frac : option str) : str := match frac with Some fp => 46%N :: fp | None => [] end.
 Definition sign_text (sg : sign) : str := match sg with SNone => [] | SPlus => [43%N] | SMinus => [45%N] end.
 Definition exp_text (e : exponent) : str :=
   match e with NoExp => [] | Exp upper sg ds => (if upper then 69%N else 101%N) :: sign_text sg ++ ds end.
@@ -87,15 +87,16 @@ Definition exp_val (e : exponent) : Z :=
   | Exp _ _ ds => digits_val ds
   end.
 
-Definition float_text (fl : float_lit) : str := fl_int fl ++ frac_text fl ++ exp_text (fl_exp fl).
+Definition float_text (fl : float_lit) : str := fl_int fl ++ frac_text (fl_frac fl) ++ exp_text (fl_exp fl).
 
 Definition float_wf (fl : float_lit) : Prop :=
-  all_digits (fl_int fl) /\ all_digits (frac_digits fl) /\ fl_int fl ++ frac_digits fl <> [] /\
+  all_digits (fl_int fl) /\ all_digits (frac_digits (fl_frac fl)) /\ fl_int fl ++ frac_digits (fl_frac fl) <> [] /\
   match fl_exp fl with NoExp => True | Exp _ _ ds => digits1 ds end.
 
 (* the value: the double nearest to  (digits of int and frac part) * 10^(exponent - |frac|)  *)
 Definition float_value (fl : float_lit) : f64 :=
-  f_of_decimal (digits_val (fl_int fl ++ frac_digits fl)) (exp_val (fl_exp fl) - Z.of_nat (length (frac_digits fl))).
+  f_of_decimal (digits_val (fl_int fl ++ frac_digits (fl_frac fl)))
+               (exp_val (fl_exp fl) - Z.of_nat (length (frac_digits (fl_frac fl)))).
 
 (* a float form that is not an int form: it has a dot or an exponent *)
 Definition has_dot_or_exp (fl : float_lit) : Prop := fl_frac fl <> None \/ fl_exp fl <> NoExp.
@@ -221,12 +222,12 @@ Definition fuses (l1 l2 : lexeme) : bool :=
 
 (* the leading word of a lexeme (what could complete  <l1> <sign>  to a scientific literal) *)
 Definition sci_coeff (fl : float_lit) : str :=
-  fl_int fl ++ frac_text fl ++ match fl_exp fl with Exp upper _ _ => [if upper then 69%N else 101%N] | NoExp => [] end.
+  fl_int fl ++ frac_text (fl_frac fl) ++ match fl_exp fl with Exp upper _ _ => [if upper then 69%N else 101%N] | NoExp => [] end.
 Definition first_word (l : lexeme) : option str :=
   match l with LWord w => Some w | LSci fl => Some (sci_coeff fl) | _ => None end.
 
 (* l1 l2 l3 written without separators would be read as ONE scientific literal (1e - 3).
-   (Then l1 ends in e/E and is itself neither a number nor a boolean: Proofs/C07.v sci_coeff_not_number.) *)
+   (Then l1 ends in e/E and is itself neither a number nor a boolean: Proofs/C07.v sci_first_not_number.) *)
 Definition sci (l1 l2 l3 : lexeme) : Prop :=
   exists w sg t, l1 = LWord w /\ l2 = LOp sg /\ (sg = XPlus \/ sg = XMinus) /\ first_word l3 = Some t /\
                  float_form (w ++ op_text sg ++ t).
